@@ -1476,15 +1476,29 @@ where
     }
 
     fn visit_mut_expr(&mut self, expr: &mut Expr) {
+        // the target of an assignment only matters to the JSX on its right-hand side
+        let outer_assignment_left = if let Expr::Assign(AssignExpr {
+            left: AssignTarget::Simple(SimpleAssignTarget::Ident(binding_ident)),
+            ..
+        }) = expr
+        {
+            Some(mem::replace(
+                &mut self.assignment_left,
+                Some(binding_ident.id.clone()),
+            ))
+        } else {
+            None
+        };
+
         expr.visit_mut_children_with(self);
+
+        if let Some(outer_assignment_left) = outer_assignment_left {
+            self.assignment_left = outer_assignment_left;
+        }
 
         match expr {
             Expr::JSXElement(jsx_element) => *expr = self.transform_jsx_element(jsx_element),
             Expr::JSXFragment(jsx_fragment) => *expr = self.transform_jsx_fragment(jsx_fragment),
-            Expr::Assign(AssignExpr {
-                left: AssignTarget::Simple(SimpleAssignTarget::Ident(binding_ident)),
-                ..
-            }) => self.assignment_left = Some(binding_ident.id.clone()),
             _ => {}
         }
         #[cfg(feature = "verif-trace")]
